@@ -59,13 +59,16 @@ Qed.
 Lemma as_dict_pid t valid ru pid ob l r ob' ru' :
   as_dict t valid ru pid ob l = (r, ob', ru') -> o_pid ob' = o_pid ob.
 Proof.
-  unfold as_dict. destruct (existsb _ _); [intros H; now inversion H|].
+  unfold as_dict. destruct (zmem BADTYPE l); [intros H; now inversion H|].
+  destruct (existsb _ _); [intros H; now inversion H|].
   destruct (zmem PPID _).
-  - destruct (o_gone ob || o_reused ob); [intros H; now inversion H|].
+  - destruct (explicit_ni l); [intros H; now inversion H|].
+    destruct (o_gone ob || o_reused ob); [intros H; now inversion H|].
     destruct (_ && negb (alive t pid)); [intros H; now inversion H|].
     destruct (is_running_obj t ru pid ob) as [[r1 ob1] ru1] eqn:E.
     apply is_running_obj_pid in E. destruct r1; intros H; inversion H; subst; exact E.
-  - destruct (_ && negb (alive t pid)); intros H; now inversion H.
+  - destruct (_ && negb (alive t pid)); [intros H; now inversion H|].
+    destruct (explicit_ni l); intros H; now inversion H.
 Qed.
 
 Definition lres_state (r : lres) : lstate :=
@@ -337,14 +340,17 @@ Qed.
 Lemma as_dict_flag t valid ru pid ob l r ob' ru' :
   as_dict t valid ru pid ob l = (r, ob', ru') -> o_reused ob = true -> o_reused ob' = true.
 Proof.
-  unfold as_dict. destruct (existsb _ _); [intros H; now inversion H|].
+  unfold as_dict. destruct (zmem BADTYPE l); [intros H; now inversion H|].
+  destruct (existsb _ _); [intros H; now inversion H|].
   destruct (zmem PPID _).
-  - destruct (o_gone ob || o_reused ob); [intros H; now inversion H|].
+  - destruct (explicit_ni l); [intros H; now inversion H|].
+    destruct (o_gone ob || o_reused ob); [intros H; now inversion H|].
     destruct (_ && negb (alive t pid)); [intros H; now inversion H|].
     destruct (is_running_obj t ru pid ob) as [[r1 ob1] ru1] eqn:E.
     pose proof (is_running_obj_flag _ _ _ _ _ _ _ E) as Hf.
     destruct r1; intros H; inversion H; subst; exact Hf.
-  - destruct (_ && negb (alive t pid)); intros H; now inversion H.
+  - destruct (_ && negb (alive t pid)); [intros H; now inversion H|].
+    destruct (explicit_ni l); intros H; now inversion H.
 Qed.
 
 Lemma flag_upd x hp n o ob2 :
@@ -591,14 +597,17 @@ Lemma as_dict_keep t valid ru pid ob l r ob' ru' k :
   as_dict t valid ru pid ob l = (r, ob', ru') -> find_proc t pid = Some k -> k_start k = o_start ob ->
   o_reused ob = false -> o_pid ob' = o_pid ob /\ o_start ob' = o_start ob /\ o_reused ob' = false.
 Proof.
-  unfold as_dict. intros H Hf Hs Hr. destruct (existsb _ _); [inversion H; subst; auto|].
+  unfold as_dict. intros H Hf Hs Hr. destruct (zmem BADTYPE l); [inversion H; subst; auto|].
+  destruct (existsb _ _); [inversion H; subst; auto|].
   destruct (zmem PPID _).
-  - destruct (o_gone ob || o_reused ob); [inversion H; subst; auto|].
+  - destruct (explicit_ni l); [inversion H; subst; auto|].
+    destruct (o_gone ob || o_reused ob); [inversion H; subst; auto|].
     destruct (_ && negb (alive t pid)); [inversion H; subst; auto|].
     destruct (is_running_obj t ru pid ob) as [[r1 ob1] ru1] eqn:E.
     pose proof (is_running_keep _ _ _ _ _ _ _ _ E Hf Hs Hr) as K.
     destruct r1; inversion H; subst; exact K.
-  - destruct (_ && negb (alive t pid)); inversion H; subst; auto.
+  - destruct (_ && negb (alive t pid)); [inversion H; subst; auto|].
+    destruct (explicit_ni l); inversion H; subst; auto.
 Qed.
 
 Lemma kept_upd x0 p0 st0 hp n o ob2 :
